@@ -10,7 +10,7 @@ TECHNIQUE = (
     'static analysis: provenance patterns (origin expression + combining operator) on the composition path of assign_tp_lt; None-discipline contradiction check via reaching definitions and guard facts; ownership analysis (no in-place mutation of model tables); data cross-reference of register types against multiplier tables ; container-vs-element contradiction check on the role lists; field agreement between shipped table rows, loader and matcher'
 )
 EXPLANATION = (
-    "R1: on the composed path of ArchSemantics.assign_tp_lt port_pressure is the element-wise sum of the data-port vector and the register form's average, port_uops the concatenation of both micro-op lists, latency = register latency + load (+ store) latency of the register type at the substituted position, latency_wo_load originates from the register latency only, throughput = max(busiest data port, register throughput); the data-port vector is the (multiplier-scaled) average of the selected load/store micro-ops. R2: throughput/latency of a model entry are None-able (the loader passes ~ through; _handle_instruction_found guards both); every arithmetic/max/+= use of such a value in the semantics classes is dominated by a None test. R3: no in-place mutation of model storage while composing (the C18 ownership analysis restricted to the composition path). R4: the unknown path sets zero pressure/latency/throughput and both unknown flags, is taken exactly when neither form matched, and assign_tp_lt writes only the instruction it was given. D1: register types used by a model's entries are covered by its multiplier tables. R5 (contradiction): the operand role lists semantic_operands[...] are lists at every other use; an isinstance test of the list itself against an operand class is constant. D2 (writer/reader agreement): every field that a shipped load/store table row carries and that the addressing-mode matcher compares on the model side is handed to the MemoryOperand the loader builds for the row."
+    "R1: on the composed path of ArchSemantics.assign_tp_lt port_pressure is the element-wise sum of the data-port vector and the register form's average, port_uops the concatenation of both micro-op lists, latency = register latency + load (+ store) latency of the register type at the substituted position, latency_wo_load originates from the register latency only, throughput = max(busiest data port, register throughput); the data-port vector is the (multiplier-scaled) average of the selected load/store micro-ops. R2: throughput/latency of a model entry are None-able (the loader passes ~ through; _handle_instruction_found guards both); every arithmetic/max/+= use of such a value in the semantics classes is dominated by a None test. R3: no in-place mutation of model storage while composing (the C18 ownership analysis restricted to the composition path). R4: the unknown path sets zero pressure/latency/throughput and both unknown flags, is taken exactly when neither form matched, and assign_tp_lt writes only the instruction it was given. D1: register types used by a model's entries are covered by its multiplier tables. R5 (contradiction): the operand role lists semantic_operands[...] are lists at every other use; an isinstance test of the list itself against an operand class is constant. D2 (writer/reader agreement): every field that a shipped load/store table row carries and that the addressing-mode matcher compares on the model side is handed to the MemoryOperand the loader builds for the row. R6: the look-ups that find the register form (assign_tp_lt) and its operand roles (assign_src_dst, from which HAS_LD/HAS_ST and so the load/store part of the composition follow) are each followed on their miss path by both suffix fall-backs with the same operand list - the register-wildcard operands - in every slot (rule shared with C07-R4)."
 )
 NOT_DECIDED = "Recomputation of the composed numbers over generated models (behavioural)."
 ASSUMPTIONS = [
@@ -77,9 +77,20 @@ def _r1(ctx, f, blk, reg):
             b = pm.match(pat, n.value)
             if b is None:
                 continue
-            sides = [U(b["M_a"]), U(b["M_b"])]
-            if "%s.port_pressure" % reg in sides:
-                other = [s for s in sides if s != "%s.port_pressure" % reg]
+            def is_reg_uops(e):
+                """the register form's micro-op container, directly or through a local that holds it / one option of it"""
+                if U(e) == "%s.port_pressure" % reg:
+                    return True
+                if not isinstance(e, ast.Name):
+                    return False
+                defs = [d for d in C.assigns_to(f.node, e.id) if isinstance(d, ast.Assign)]
+                srcs = ("%s.port_pressure" % reg, e.id)
+                return bool(defs) and any(U(d.value) == srcs[0] for d in defs) and all(
+                    U(d.value) == srcs[0] or any(pm.match(p % x, d.value) is not None for x in srcs for p in (
+                        "%s[M_k]", "list(%s.values())[M_k]", "next(iter(%s.values()))")) for d in defs)
+            regside = [x for x in (b["M_a"], b["M_b"]) if is_reg_uops(x)]
+            if len(regside) == 1:
+                other = [U(x) for x in (b["M_a"], b["M_b"]) if x is not regside[0]]
                 if len(other) == 1 and other[0].isidentifier():
                     ok2 = True
                     duops = other[0]
@@ -442,3 +453,7 @@ def run(ctx):
     _r5(ctx)
     _d1(ctx)
     _d2(ctx)
+    # R6: which register form is found, and whether the form counts as load / store / both, is decided by look-ups that
+    # are retried without the mnemonic suffix - with the register-wildcard operands in every slot (shared with C07-R4)
+    from . import c07
+    c07._r4(ctx, rule="R6", funcs=("ArchSemantics.assign_tp_lt", "ISASemantics.assign_src_dst"), floor=4)
